@@ -313,7 +313,8 @@ def run_assembly(case):
                     case["all_pairs"])
                 r = main_rpe.rpe(ref, est, rel, case["delta"], du, 0.5,
                                  case["all_pairs"], case["from_ref"],
-                                 change_unit=cu, ref_name="R", est_name="E")
+                                 change_unit=cu, ref_name="R", est_name="E",
+                                 support_loop=bool(case.get("support_loop")))
     except (metrics.MetricsException, filters.FilterException) as e:
         if isinstance(e, metrics.MetricsException) and not (
                 case["unit"] and not allowed(base_unit, case["unit"])):
@@ -428,6 +429,9 @@ def assembly_cases():
                                     "dunit": dunit, "delta": delta,
                                     "all_pairs": allp, "from_ref": from_ref,
                                     "timed": timed, "mode": "quat"})
+    # (library-only switch of rpe(): work on copies of the inputs)
+    cases += [dict(c, support_loop=True) for c in cases
+              if c["tool"] == "rpe" and c["timed"]]
     return cases + [dict(c, est="copy") for c in cases]
 
 
